@@ -150,7 +150,7 @@ pub fn signature(steps: &[Step], with_handles: bool) -> u64 {
     f.0
 }
 
-fn same_violation(stop: &Option<Stop>, v: &Violation) -> bool {
+pub fn same_violation(stop: &Option<Stop>, v: &Violation) -> bool {
     matches!(stop, Some(Stop::Violation(w)) if w.check == v.check && w.property == v.property)
 }
 
@@ -252,6 +252,75 @@ pub struct BatchOut {
     pub violating_runs: u64,
 }
 
+pub const CHUNK: u64 = 64;
+
+#[allow(clippy::too_many_arguments)]
+fn run_chunk(
+    prop: Prop,
+    seed: u64,
+    lo: u64,
+    hi: u64,
+    first_run: u64,
+    known: &[String],
+    keep_hashes: bool,
+    stop_on_violation: bool,
+    halt: &AtomicBool,
+    worker: u64,
+) -> BatchOut {
+    let mut local = BatchOut::default();
+    let mut progress = PROGRESS_DIR.get().and_then(|d| {
+        std::fs::OpenOptions::new()
+            .create(true)
+            .write(true)
+            .open(format!("{}/worker-{}", d, worker))
+            .ok()
+    });
+    for i in lo..hi {
+        if let Some(f) = progress.as_mut() {
+            use std::io::{Seek, Write};
+            let _ = f.seek(std::io::SeekFrom::Start(0));
+            let _ = f.write_all(format!("{:020}\n", i).as_bytes());
+        }
+        let res = run_one(prop, seed, i, known);
+        local.runs += 1;
+        local.stats.merge(&res.stats);
+        if keep_hashes {
+            local.hashes.push((i, res.hash));
+        }
+        if nontrivial(prop, &res) {
+            local.nontrivial_sigs.insert(signature(&res.steps, false));
+        }
+        local.interleavings.insert(signature(&res.steps, true));
+        if i < first_run + 3 {
+            local.samples.push(serde_json::json!({
+                "run": i,
+                "cfg": res.cfg,
+                "steps": res.steps.iter().take(12).collect::<Vec<_>>(),
+                "total_steps": res.steps.len(),
+            }));
+        }
+        match &res.stop {
+            None => {}
+            Some(Stop::Harness(m)) => {
+                local.harness_errors.push((i, m.clone()));
+            }
+            Some(Stop::Violation(_)) => {
+                local.violating_runs += 1;
+                if stop_on_violation {
+                    halt.store(true, Ordering::Relaxed);
+                }
+                if local.first_violation.is_none() {
+                    local.first_violation = Some((i, res));
+                }
+                if stop_on_violation {
+                    break;
+                }
+            }
+        }
+    }
+    local
+}
+
 fn nontrivial(prop: Prop, res: &RunResult) -> bool {
     match prop {
         Prop::C15 => res.steps.iter().any(|s| s.is_value_op()),
@@ -273,91 +342,61 @@ pub fn run_batch(
     keep_hashes: bool,
     stop_on_violation: bool,
 ) -> BatchOut {
-    let next = AtomicU64::new(first_run);
     let end = first_run + runs;
     let halt = AtomicBool::new(false);
     let out = Mutex::new(BatchOut::default());
     let wid = AtomicU64::new(0);
+    // Runs are handed out in chunks of CHUNK consecutive indices and every chunk executes on a
+    // fresh OS thread: per-thread state that the tree under test might keep (thread_local!) can
+    // then only flow between runs of one chunk, in index order — independent of the worker count.
+    let first_chunk = first_run / CHUNK;
+    let next_chunk = AtomicU64::new(first_chunk);
     std::thread::scope(|sc| {
         for _ in 0..threads.max(1) {
             sc.spawn(|| {
-                let mut local = BatchOut::default();
                 let my = wid.fetch_add(1, Ordering::Relaxed);
-                let mut progress = PROGRESS_DIR.get().and_then(|d| {
-                    std::fs::OpenOptions::new()
-                        .create(true)
-                        .write(true)
-                        .truncate(true)
-                        .open(format!("{}/worker-{}", d, my))
-                        .ok()
-                });
                 loop {
                     if halt.load(Ordering::Relaxed) {
                         break;
                     }
-                    let i = next.fetch_add(1, Ordering::Relaxed);
-                    if i >= end {
+                    let c = next_chunk.fetch_add(1, Ordering::Relaxed);
+                    let lo = (c * CHUNK).max(first_run);
+                    let hi = ((c + 1) * CHUNK).min(end);
+                    if lo >= end {
                         break;
                     }
-                    if let Some(f) = progress.as_mut() {
-                        use std::io::{Seek, Write};
-                        let _ = f.seek(std::io::SeekFrom::Start(0));
-                        let _ = f.write_all(format!("{:020}\n", i).as_bytes());
-                    }
-                    let res = run_one(prop, seed, i, known);
-                    local.runs += 1;
-                    local.stats.merge(&res.stats);
-                    if keep_hashes {
-                        local.hashes.push((i, res.hash));
-                    }
-                    if nontrivial(prop, &res) {
-                        local.nontrivial_sigs.insert(signature(&res.steps, false));
-                    }
-                    local.interleavings.insert(signature(&res.steps, true));
-                    if i < first_run + 3 {
-                        local.samples.push(serde_json::json!({
-                            "run": i,
-                            "cfg": res.cfg,
-                            "steps": res.steps.iter().take(12).collect::<Vec<_>>(),
-                            "total_steps": res.steps.len(),
-                        }));
-                    }
-                    match &res.stop {
-                        None => {}
-                        Some(Stop::Harness(m)) => {
-                            local.harness_errors.push((i, m.clone()));
+                    let part = std::thread::scope(|s2| {
+                        std::thread::Builder::new()
+                            .stack_size(16 << 20)
+                            .spawn_scoped(s2, || run_chunk(prop, seed, lo, hi, first_run, known, keep_hashes, stop_on_violation, &halt, my))
+                            .expect("HARNESS: spawn chunk thread")
+                            .join()
+                    });
+                    let local = match part {
+                        Ok(l) => l,
+                        Err(p) => {
+                            let mut l = BatchOut::default();
+                            l.harness_errors.push((lo, format!("chunk thread panicked: {}", crate::observe::panic_message(p))));
+                            l
                         }
-                        Some(Stop::Violation(_)) => {
-                            local.violating_runs += 1;
-                            if stop_on_violation {
-                                halt.store(true, Ordering::Relaxed);
-                            }
-                            let better = match &local.first_violation {
-                                Some((j, _)) => i < *j,
-                                None => true,
-                            };
-                            if better {
-                                local.first_violation = Some((i, res));
-                            }
-                        }
-                    }
-                }
-                let mut g = out.lock().unwrap();
-                g.runs += local.runs;
-                g.stats.merge(&local.stats);
-                g.nontrivial_sigs.extend(local.nontrivial_sigs);
-                g.interleavings.extend(local.interleavings);
-                g.samples.extend(local.samples);
-                g.harness_errors.extend(local.harness_errors);
-                g.hashes.extend(local.hashes);
-                g.violating_runs += local.violating_runs;
-                if let Some((i, r)) = local.first_violation {
-                    let better = match &g.first_violation {
-                        Some((j, _)) => i < *j,
-                        None => true,
                     };
-                    if better {
-                        g.first_violation = Some((i, r));
+                    let mut g = out.lock().unwrap();
+                    g.runs += local.runs;
+                    g.stats.merge(&local.stats);
+                    g.nontrivial_sigs.extend(local.nontrivial_sigs);
+                    g.interleavings.extend(local.interleavings);
+                    g.samples.extend(local.samples);
+                    g.harness_errors.extend(local.harness_errors);
+                    g.hashes.extend(local.hashes);
+                    g.violating_runs += local.violating_runs;
+                    if let Some((i, r)) = local.first_violation {
+                        let better = match &g.first_violation {
+                            Some((j, _)) => i < *j,
+                            None => true,
+                        };
+                        if better {
+                            g.first_violation = Some((i, r));
+                        }
                     }
                 }
             });
